@@ -8,6 +8,24 @@ def free_port():
     s = socket.socket(); s.bind(("127.0.0.1", 0)); p = s.getsockname()[1]; s.close(); return p
 
 
+def listening(port):
+    """is some socket listening on 127.0.0.1:port (or the wildcard address)?  read from /proc/net/tcp, no connection is made"""
+    want = "%04X" % port
+    try:
+        with open("/proc/net/tcp") as f:
+            for line in f.readlines()[1:]:
+                p = line.split()
+                if len(p) > 3 and p[3] == "0A" and p[1].split(":")[1] == want:
+                    return True
+        return False
+    except OSError:
+        # no /proc: fall back to a connection (the first connection is then the probe's)
+        try:
+            c = socket.create_connection(("127.0.0.1", port), timeout=0.5); c.close(); return True
+        except OSError:
+            return False
+
+
 class Server:
     def __init__(self, exe, root, threads=4, extra_args=(), env=None, cwd=None):
         self.port = free_port()
@@ -20,14 +38,15 @@ class Server:
         self.p = subprocess.Popen([exe, "-p=%d" % self.port, "-i=127.0.0.1", "-t=%d" % threads] + list(extra_args), cwd=cwd or root, env=e,
                                   stdout=self.log, stderr=subprocess.STDOUT)
         self.threads = threads
-        dl = time.time() + 10
+        # wait until the port is in LISTEN state WITHOUT connecting: a probe connection would be the server's first connection, and the
+        # references "a server that has seen nothing" would all be taken after it (seed C08-f hid behind exactly that)
+        dl = time.time() + 20
         while time.time() < dl:
-            try:
-                c = socket.create_connection(("127.0.0.1", self.port), timeout=0.5); c.close(); return
-            except OSError:
-                if self.p.poll() is not None:
-                    break
-                time.sleep(0.05)
+            if listening(self.port):
+                return
+            if self.p.poll() is not None:
+                break
+            time.sleep(0.02)
         raise RuntimeError("server did not start")
 
     def alive(self):
